@@ -606,9 +606,10 @@ pub fn run(ctx: &Ctx, rep: &mut Report) {
     let e64 = f64::EPSILON;
     for c in ctx.case_ids("trace", 320, 40_000) {
         let mut g = ctx.rng("trace", c);
-        match c % 4 {
-            0 | 2 => families::<f64, B64>(ctx, rep, c, &mut g, "NdArray<f64>", e64, false),
-            1 => families::<f32, B32>(ctx, rep, c, &mut g, "NdArray<f32>", e32, false),
+        match c % 8 {
+            0 | 2 | 4 => families::<f64, B64>(ctx, rep, c, &mut g, "NdArray<f64>", e64, false),
+            1 | 5 => families::<f32, B32>(ctx, rep, c, &mut g, "NdArray<f32>", e32, false),
+            6 => families::<f64, B32>(ctx, rep, c, &mut g, "NdArray<f32>", e32, false),
             _ => families::<f32, B64>(ctx, rep, c, &mut g, "NdArray<f64>", e64, false),
         }
     }
